@@ -190,6 +190,11 @@ func (p C04) Run(c *sim.Ctx, t *sim.Tape) sim.RunResult {
 			p = "/" + name()
 		}
 
+		if t.Chance(40) {
+			// a trailing separator: only a directory (or a link to one) may precede it.
+			p += "/"
+		}
+
 		// after a Chdir: relative forms, also climbing out of the current directory.
 		if w.cwd != "/" && t.Chance(250) {
 			switch t.Int(3) {
@@ -202,6 +207,10 @@ func (p C04) Run(c *sim.Ctx, t *sim.Tape) sim.RunResult {
 					p = strings.TrimPrefix(p, w.cwd+"/")
 				}
 			}
+		}
+
+		if p == "" {
+			p = "." // (the empty path is not part of this profile)
 		}
 
 		return p
